@@ -1374,7 +1374,22 @@ func GenerateF(genseed uint64, stream string, thorough bool) *FCase {
 		c.MapRoot = true
 	}
 	c.Sched = stream == "sched" || stream == "schedshared"
-	if c.API != "r" && r.Chance(1, 4) {
+	// a remote.Repository over the in-process registry as destination (free-running only; registries tag
+	// manifests only, so Copy needs a manifest root; the harness-side Mounter wrapper is not combined with it)
+	if !c.Sched && r.Chance(1, 6) && (c.API == "g" || c.API == "x" || g.Nodes[c.Root].IsManifest()) {
+		c.Dst = "remote"
+	}
+	if !c.Sched && c.API != "x" && r.Chance(1, 8) && (c.API == "g" || g.Nodes[c.Root].IsManifest()) {
+		c.Src = "remote"
+	}
+	// the file store (blobs without a title go to its in-memory fallback storage), free-running only
+	if !c.Sched && c.Dst != "remote" && r.Chance(1, 10) {
+		c.Dst = "file"
+	}
+	if !c.Sched && c.Src != "remote" && r.Chance(1, 12) {
+		c.Src = "file"
+	}
+	if c.API != "r" && c.Dst != "remote" && r.Chance(1, 4) {
 		c.Mount = true
 	}
 	if (c.API == "t" || c.API == "r") && r.Chance(1, 3) {
